@@ -329,4 +329,27 @@ example : standardOpen { host := b!"r1", port := 22, user := b!"bob", password :
     { strictKey := true, knownHostsFile := b!"/k" } true true .matches (fun _ => true)
     = .established (b!"bob") (.password (b!"pw")) := by decide
 
+/-- everything `openBase` configures except the auth methods is independent of the password:
+the password reaches the server only inside the authentication exchange -/
+theorem standard_password_only_in_auth (a : Args) (s : SSHArgs) (khLoads keyLoads : Bool) (p : Bytes) :
+    (standardCfg { a with password := p } s khLoads keyLoads).map (fun c => { c with auth := [] }) =
+    (standardCfg a s khLoads keyLoads).map (fun c => { c with auth := [] }) := by
+  unfold standardCfg
+  cases s.strictKey <;> cases khLoads <;> cases keyLoads <;>
+    by_cases hk : s.knownHostsFile = [] <;> by_cases hp : s.privateKeyPath = [] <;>
+    simp [*, Except.map]
+
+/-- no credential (key, password, keyboard-interactive answer) is offered to a server whose host
+key was not accepted under strict checking -/
+theorem no_credentials_before_host_key (a : Args) (s : SSHArgs) (khLoads keyLoads : Bool)
+    (v : KhVerdict) (acc : AuthMethod → Bool) (hs : s.strictKey = true) (hv : v ≠ .matches) :
+    standardAttempts a s khLoads keyLoads v acc = [] := by
+  unfold standardAttempts
+  split
+  · rfl
+  · rename_i cfg hc
+    have := (standard_policy a s khLoads keyLoads cfg hc).1
+    rw [this, hs]
+    cases v <;> simp [hostKeyAccepted] at hv ⊢
+
 end Scrapli.SshCfg.C14
